@@ -5,7 +5,9 @@ spec: FMachine (MiniFortran reference machine) + Trace_Parametrise: for the gfor
       fixed values must print Run(original, input).out; every other input must stop through the generated guard
       (observation <<Abort>>: `STOP 1` after the default message, or the abort callback's `ERROR STOP`).
 code: loki/transformations/parametrise.py ParametriseTransformation(dic2p, replace_by_value, entry_points,
-      abort_callback) over kernel -> lev1 -> lev2 (lib_fm_signature.GenParam).
+      abort_callback) over kernel -> lev1 -> lev2 (lib_fm_signature.GenParam);
+      declare_fixed_value_scalars_as_constants on general kernels (class "consts": no parametrised dummy, every
+      input must give Run(original).out).
 """
 from .. import lib_fm as F
 from .. import lib_fm_signature as S
@@ -20,6 +22,8 @@ def gen_cases(ctx, n):
     for feats, share in MIX:
         for _ in range(max(2, round(n * share))):
             cases.append(S.gen_param_case(ctx.rng, BASE + feats, ninputs=4 if ctx.quick else 6))
+    for i in range(max(4, round(n * 0.2))):
+        cases.append(S.gen_consts_case(ctx.rng, BASE + (('call', 'fcall', 'assoc') if i % 2 else ('call', 'fcall')), ninputs=3))
     return cases
 
 
